@@ -21,6 +21,9 @@ template <> struct DomTraits<PPL::Rational_Box> { static const bool strict = tru
 template <class P> struct DomTraits<PPL::Pointset_Powerset<P> > { static const bool strict = DomTraits<P>::strict, grid = false, poly = false, powerset = true, product = false; };
 template <class A, class B, class R> struct DomTraits<PPL::Partially_Reduced_Product<A, B, R> > { static const bool strict = false, grid = false, poly = false, powerset = false, product = true; };
 
+inline void canon_min(const PPL::C_Polyhedron& p) { (void)p.minimized_constraints(); }
+inline void canon_min(const PPL::NNC_Polyhedron& p) { (void)p.minimized_constraints(); }
+template <class T> inline void canon_min(const T&) {}
 template <class D> inline void add_desc_ops(ClassAdapter<D>& A, std::true_type) {
   typedef Mut<D> M;
   Variable x(0), y(1);
@@ -110,7 +113,11 @@ inline void add_common_domain_ops(ClassAdapter<D>& A) {
 template <class D>
 inline void add_simple_domain_ops(ClassAdapter<D>& A) {   // not for powersets / products
   typedef Mut<D> M;
-  A.muts.push_back(M("simplify_using_context_assign", true, [](D& d, const D* a) { return b2s(d.simplify_using_context_assign(*a)); }));
+  // a meet-preserving simplification is not unique: which redundant constraints of the receiver survive depends on
+  // its representation, so polyhedra are brought to minimal form first (value-preserving) to make it a value function
+  // (even minimal NNC descriptions are not unique), so the value that is compared is the one the contract fixes:
+  // the meet of the result with the context
+  A.muts.push_back(M("simplify_using_context_assign", true, [](D& d, const D* a) { canon_min(d); canon_min(*a); D ctx(*a); bool r = d.simplify_using_context_assign(*a); if (ctx.space_dimension() == d.space_dimension()) d.intersection_assign(ctx); return b2s(r); }));
   A.muts.push_back(M("upper_bound_assign_if_exact", true, [](D& d, const D* a) { return b2s(d.upper_bound_assign_if_exact(*a)); }));
   A.muts.push_back(M("widening_assign(if contained)", true, [](D& d, const D* a) { if (d.space_dimension() != a->space_dimension() || !d.contains(*a)) return std::string("skipped"); d.widening_assign(*a); return std::string(); }));
   A.muts.push_back(M("widening_assign(if contained,tokens=1)", true, [](D& d, const D* a) { if (d.space_dimension() != a->space_dimension() || !d.contains(*a)) return std::string("skipped"); unsigned t = 1; d.widening_assign(*a, &t); return std::to_string(t); }));
@@ -211,7 +218,7 @@ inline ClassAdapter<PPL::Pointset_Powerset<P> > powerset_adapter(const std::stri
   A.muts.push_back(M("geometrically_equals", true, [](D& d, const D* a) { return b2s(d.geometrically_equals(*a)); }, true));
   A.muts.push_back(M("definitely_entails", true, [](D& d, const D* a) { return b2s(d.definitely_entails(*a)); }, true));
   A.muts.push_back(M("meet_assign", true, [](D& d, const D* a) { d.meet_assign(*a); return std::string(); }));
-  A.muts.push_back(M("simplify_using_context_assign", true, [](D& d, const D* a) { return b2s(d.simplify_using_context_assign(*a)); }));
+  A.muts.push_back(M("simplify_using_context_assign", true, [](D& d, const D* a) { D ctx(*a); bool r = d.simplify_using_context_assign(*a); if (ctx.space_dimension() == d.space_dimension()) d.intersection_assign(ctx); return b2s(r); }));
   A.muts.push_back(M("add_first_disjunct_of_arg", true, [](D& d, const D* a) { if (a->begin() != a->end() && a->space_dimension() == d.space_dimension()) d.add_disjunct(a->begin()->pointset()); return std::string(); }));
   fill_io<D>(A, []() { return new D(0, PPL::UNIVERSE); });
   // equality of powersets as values is geometric, not syntactic
